@@ -186,11 +186,16 @@ def _call(args):
         return idx, None, f"{type(e).__name__}: {e}\n{traceback.format_exc()}"
 
 
+_EARLY_STOPPED = [False]
+
+
 def pmap(func, items, nproc=None, chunksize=1):
     """Deterministic parallel map (results in item order). Worker death or an exception in
     `func` is a harness error (exit 2), never a pass."""
     items = list(items)
     nproc = nproc or NPROC
+    if _EARLY_STOPPED[0]:
+        return [None] * len(items)
     if nproc <= 1 or len(items) <= 1:
         _worker_init()
         out = []
@@ -203,6 +208,8 @@ def pmap(func, items, nproc=None, chunksize=1):
     ctx = mp.get_context("fork")
     results = [None] * len(items)
     got = 0
+    stop_early = os.environ.get("VERIF_STOP_ON_FIRST") == "1"  # detection runs against seeded changes only: never set by the registered commands
+    stopped = False
     with ctx.Pool(nproc, initializer=_worker_init) as pool:
         for idx, res, err in pool.imap_unordered(_call, [(func, i, it) for i, it in enumerate(items)], chunksize):
             if err:
@@ -210,6 +217,14 @@ def pmap(func, items, nproc=None, chunksize=1):
                 harness_error(err)
             results[idx] = res
             got += 1
+            if stop_early and getattr(res, "viol", None):
+                pool.terminate()
+                stopped = True
+                break
+    if stopped:
+        _EARLY_STOPPED[0] = True
+        print(f"(stopped after the first violating shard: {got} of {len(items)} shards; not an exhaustive run)")
+        return results
     if got != len(items):
         harness_error(f"only {got} of {len(items)} shards returned (worker died?)")
     return results
